@@ -2030,6 +2030,8 @@ class latest(Stream):
         self._condition = None
         self.next = []
         self.next_metadata = None
+        self._emitting = False
+        self._superseded = False
 
         kwargs["ensure_io_loop"] = True
         Stream.__init__(self, upstream, **kwargs)
@@ -2043,7 +2045,11 @@ class latest(Stream):
         return self._condition
 
     def update(self, x, who=None, metadata=None):
-        if self.next_metadata:
+        if self._emitting and not self.next:
+            # the element being replaced is still being delivered downstream:
+            # cb releases its references once that delivery has completed
+            self._superseded = True
+        elif self.next_metadata:
             self._release_refs(self.next_metadata)
         self._retain_refs(metadata)
 
@@ -2054,9 +2060,19 @@ class latest(Stream):
     @gen.coroutine
     def cb(self):
         while True:
-            yield self.condition.wait()
-            [x] = self.next
-            yield self._emit(x, self.next_metadata)
+            # Wait only while nothing new has arrived: an element that came in
+            # while we were emitting (its notify found nobody waiting) must
+            # still go out, and a notify left over from an element that was
+            # already taken must not deliver it a second time.
+            while not self.next:
+                yield self.condition.wait()
+            [x], self.next = self.next, []
+            metadata = self.next_metadata
+            self._emitting, self._superseded = True, False
+            yield self._emit(x, metadata)
+            self._emitting = False
+            if self._superseded and metadata:
+                self._release_refs(metadata)
 
 
 def sync(loop, func, *args, **kwargs):
